@@ -1208,6 +1208,14 @@ func (x *Exec) opPeerData(st *Step) {
 	} else if optional {
 		x.St.inc("peerdata-oversize")
 	}
+	if tc := x.client(st.C); st.RespLost && a != nil && !x.w.clients[a.Client].Stream && st.Stall == 0 && len(dels) == 1 && tc.Idx == a.Client {
+		// the server's write of this relayed datagram to the client fails (a transient sendto
+		// error on the listening socket): that one datagram is lost and nothing else changes -
+		// what is authorised stays authorised, as the later probes check
+		x.w.srvSock.FailWrites(1)
+		dels = nil
+		x.St.inc("peerdata-server-write-fails")
+	}
 	_, _ = ps.WriteTo(payload, target)
 	// (the later datagrams are only looked at by the server when the client reads again: what
 	// authorises them must outlive the stall, and nothing else may expire meanwhile)
@@ -1239,6 +1247,7 @@ func (x *Exec) opPeerData(st *Step) {
 		x.St.inc("stream-client-stalled")
 	}
 	x.settle()
+	x.w.srvSock.FailWrites(0)
 	x.checkWire(x.observe(), nil, nil, dels, fmt.Sprintf("peer datagram (%d bytes) %v -> relay %v", len(payload), src, target))
 }
 
